@@ -56,3 +56,34 @@ def fdsOk (nfds : Option Nat) (t : Ty) (v : Val) : Bool :=
   | some c => fdsBelow c t v
 
 end Rustbus.Spec.Wire
+
+namespace Rustbus.Spec.Wire
+open Rustbus Rustbus.Wire
+
+mutual
+/-- `v` is a value of type `t` whose leaves have an encoding at all: integers within their width,
+    booleans 0/1, strings valid UTF-8 without NUL (and shorter than 2^32), object paths and signatures
+    valid, no empty struct, dict entries are (key, value) pairs, variant payload types valid single
+    signatures. (Sizes of arrays are a separate matter: see `enc`'s 64 MiB test.) -/
+def wellTyped : Ty → Val → Bool
+  | .base b, .num n => b.fixedSize.isSome && decide (n < b.bound)
+  | .base b, .str bs => b.fixedSize.isNone && strOk b bs && decide (bs.length < 256 ^ 4)
+  | .array e, .arr vs => wellTypedList e vs
+  | .dict k vt, .arr es => wellTypedEntries k vt es
+  | .struct fs, .struct vs => !fs.isEmpty && wellTypedFields fs vs
+  | .variant, .variant t v => variantTypeOk t && wellTyped t v
+  | _, _ => false
+def wellTypedList (e : Ty) : List Val → Bool
+  | [] => true
+  | v :: vs => wellTyped e v && wellTypedList e vs
+def wellTypedEntries (k : Base) (vt : Ty) : List Val → Bool
+  | [] => true
+  | .struct [kv, vv] :: rest => wellTyped (.base k) kv && wellTyped vt vv && wellTypedEntries k vt rest
+  | _ :: _ => false
+def wellTypedFields : List Ty → List Val → Bool
+  | [], [] => true
+  | t :: ts, v :: vs => wellTyped t v && wellTypedFields ts vs
+  | _, _ => false
+end
+
+end Rustbus.Spec.Wire
